@@ -135,7 +135,7 @@ def parse_args(argv):
             a["tier"] = next(it)
         elif k == "--out":
             a["out"] = next(it)
-        elif k == "--procs":
+        elif k in ("--procs", "--threads"):
             a["procs"] = int(next(it))
         else:
             sys.stderr.write("unknown argument %r\n" % k)
